@@ -338,6 +338,48 @@ def check(ctx):
                                          'allreduce_result (may, not must, break)')
             ctx.guard('R1', fsite(d), rdrv)
     ctx.count('MPI drivers', nd, 6)
+    # ---------------------------------------------------------------- R8 one communicator
+    # rank, size and every collective must refer to the communicator the caller passed in: on a
+    # sub-communicator (MPI_Comm_split) the size of MPI_COMM_WORLD is not the number of ranks that
+    # share the work, and a collective on another communicator involves other processes
+    nmpi = 0
+    for name in MPI_DRIVERS + ['hep::allreduce_result', 'hep::mpi_callback::operator()']:
+        for f in instances(p, name):
+            ctx.analysed(f)
+
+            def r8(f=f, name=name):
+                nonlocal nmpi
+                cps = [q for q in f.params if 'ompi_communicator_t' in (q.type or '') or 'MPI_Comm' in (q.type or '')]
+                if len(cps) != 1:
+                    raise AnalysisBroken('%s does not take exactly one communicator' % name)
+                comm = sym(cps[0].name)
+                s, ex = summarise(p, f, opaque=DRV_OPAQUE - {name})
+                for e, l in flat_effects(s.effects):
+                    if e['kind'] != 'mpi':
+                        continue
+                    nmpi += 1
+                    w = '%s:%s' % (e['where'], name.replace('hep::', ''))
+                    pos = {'MPI_Comm_rank': 0, 'MPI_Comm_size': 0, 'MPI_Allreduce': 5, 'MPI_Barrier': 0,
+                           'MPI_Bcast': 4, 'MPI_Reduce': 6, 'MPI_Allgather': 6, 'MPI_Gather': 7}.get(e['name'])
+                    if pos is not None and pos < len(e['args']):
+                        cargs = [e['args'][pos]]
+                    else:
+                        cargs = [v for v, n in zip(e['args'], e.get('argnodes') or [])
+                                 if 'ompi_communicator_t' in (n.ty or '') or 'MPI_Comm' in (n.ty or '')]
+                    if not cargs:
+                        raise AnalysisBroken('%s: communicator argument of %s not identified' % (w, e['name']))
+                    if all(c == comm for c in cargs):
+                        ctx.holds('R8.same_communicator', w, '%s refers to the communicator passed to %s'
+                                  % (e['name'], name.replace('hep::', '')))
+                    else:
+                        ctx.violation('R8.same_communicator', w, '%s does not use the communicator passed to %s: '
+                                      'on a sub-communicator the number of ranks / the set of processes taking '
+                                      'part in the collective is wrong (calls are split for the wrong number of '
+                                      'processes, the estimate is scaled by size(comm)/size(other))'
+                                      % (e['name'], name.replace('hep::', '')),
+                                      {'communicator_argument': [T.pretty(c)[:120] for c in cargs]})
+            ctx.guard('R8', fsite(f), r8)
+    ctx.count('MPI calls checked for their communicator', nmpi, 9)
     # shared: callback decision identical on all ranks, driver loop shape
     from . import C12, C19
     for name in MPI_DRIVERS:
